@@ -20,30 +20,80 @@ CACHE = os.path.join(VERIF, '.cache')
 WDIR = os.path.join(VERIF, 'witness')
 
 
+_PRIVATE_BINS = []
+
+
+def _cleanup_bins():
+    for b in _PRIVATE_BINS:
+        try:
+            os.remove(b)
+        except OSError:
+            pass
+
+
+import atexit
+atexit.register(_cleanup_bins)
+
+
 def _build(repo):
-    """build /verif/witness against the given repo root; returns path of the binary or None"""
+    """build /verif/witness against the CONTENT of the given repo root and return the path of a binary that belongs to this
+    process alone (None if it cannot be built).
+
+    The sources are first mirrored by CHECKSUM into .cache/witness-src (rsync -rc: a file whose content changed gets a fresh
+    mtime there, an unchanged one keeps its old one), and the crate is built from that mirror.  Two hazards are closed this way:
+    (1) cargo decides freshness by mtime, so a tree whose files were restored or swapped with preserved timestamps would
+    silently keep the previous binary; (2) the shared target directory yields ONE binary path, so concurrent runs for different
+    trees (bin/matrix, a scratch run next to a /repo run) would execute each other's build.  Build and copy happen under a
+    file lock; the copy is private and removed at exit."""
     if not os.path.isdir(WDIR):
         return None
+    import fcntl
+    import shutil
     env = dict(os.environ)
     env['CARGO_NET_OFFLINE'] = 'true'
+    os.makedirs(CACHE, exist_ok=True)
     tdir = os.path.join(CACHE, 'witness-target')
-    manifest = os.path.join(WDIR, 'Cargo.toml')
-    if os.path.abspath(repo) != '/repo':
-        # a scratch overlay: point a temporary manifest at it
-        import shutil
-        import tempfile
-        d = tempfile.mkdtemp(prefix='vx-wit-', dir='/tmp')
-        shutil.copytree(WDIR, os.path.join(d, 'witness'), ignore=shutil.ignore_patterns('target'))
-        m = os.path.join(d, 'witness', 'Cargo.toml')
-        t = open(m).read().replace('/repo/yrs', os.path.join(os.path.abspath(repo), 'yrs'))
-        open(m, 'w').write(t)
-        manifest = m
-    p = subprocess.run(['cargo', 'build', '--offline', '--quiet', '--manifest-path', manifest, '--target-dir', tdir],
-                       env=env, stdout=subprocess.PIPE, stderr=subprocess.STDOUT, text=True)
-    if p.returncode != 0:
-        sys.stderr.write('witness build failed:\n' + p.stdout[-2000:] + '\n')
-        return None
-    return os.path.join(tdir, 'debug', 'vx_witness')
+    mirror = os.path.join(CACHE, 'witness-src')
+    repo = os.path.abspath(repo)
+    lockf = open(os.path.join(CACHE, 'witness.lock'), 'w')
+    fcntl.flock(lockf, fcntl.LOCK_EX)
+    try:
+        os.makedirs(os.path.join(mirror, 'yrs'), exist_ok=True)
+        os.makedirs(os.path.join(mirror, 'witness'), exist_ok=True)
+        rs = ['rsync', '-rc', '--delete', '--exclude', 'target', '--exclude', 'node_modules', '--exclude', 'pkg']
+        ok = subprocess.run(rs + [os.path.join(repo, 'yrs') + '/', os.path.join(mirror, 'yrs') + '/']).returncode == 0
+        ok = ok and subprocess.run(rs + ['--exclude', 'Cargo.toml', WDIR + '/', os.path.join(mirror, 'witness') + '/']).returncode == 0
+        for name in ('Cargo.toml', 'Cargo.lock'):
+            src = os.path.join(repo, name)
+            if os.path.exists(src):
+                ok = ok and subprocess.run(['rsync', '-c', src, os.path.join(mirror, name)]).returncode == 0
+        for member in ('yffi', 'ywasm'):
+            msrc = os.path.join(repo, member)
+            if os.path.isdir(msrc):
+                os.makedirs(os.path.join(mirror, member), exist_ok=True)
+                subprocess.run(['rsync', '-c', os.path.join(msrc, 'Cargo.toml'), os.path.join(mirror, member, 'Cargo.toml')])
+                if os.path.isdir(os.path.join(msrc, 'src')):
+                    subprocess.run(rs + [os.path.join(msrc, 'src') + '/', os.path.join(mirror, member, 'src') + '/'])
+        if not ok:
+            sys.stderr.write('witness: could not mirror the sources\n')
+            return None
+        m = os.path.join(mirror, 'witness', 'Cargo.toml')
+        t = open(os.path.join(WDIR, 'Cargo.toml')).read().replace('/repo/yrs', os.path.join(mirror, 'yrs'))
+        if not os.path.exists(m) or open(m).read() != t:
+            open(m, 'w').write(t)
+        p = subprocess.run(['cargo', 'build', '--offline', '--quiet', '--manifest-path', m, '--target-dir', tdir],
+                           env=env, stdout=subprocess.PIPE, stderr=subprocess.STDOUT, text=True)
+        if p.returncode != 0:
+            sys.stderr.write('witness build failed:\n' + p.stdout[-2000:] + '\n')
+            return None
+        bdir = os.path.join(CACHE, 'witness-bin')
+        os.makedirs(bdir, exist_ok=True)
+        priv = os.path.join(bdir, 'vx_witness.%d.%d' % (os.getpid(), len(_PRIVATE_BINS)))
+        shutil.copy2(os.path.join(tdir, 'debug', 'vx_witness'), priv)
+        _PRIVATE_BINS.append(priv)
+        return priv
+    finally:
+        lockf.close()
 
 
 def target_for(cfg, fn, unit=None):
